@@ -624,6 +624,8 @@ def ev_select(case):
             lo = np.array([b[0] for b in gp.hp_bounds], dtype=float)
             hi = np.array([b[1] for b in gp.hp_bounds], dtype=float)
             ctx = {"config": cfg, "starts": [list(placements[i]) for i in tup], "theta": theta.tolist(), "bounds": [lo.tolist(), hi.tolist()]}
+            if spy is not None:
+                ctx["optimiser_runs_flag_cost"] = [list(r) for r in spy.runs]
             if theta.shape != lo.shape or not np.all(np.isfinite(theta)) or np.any(theta < lo) or np.any(theta > hi):
                 fails.append(fail("select/bfgs-%s%s/outside-bounds" % (crit, regime), "selected %s not within %s..%s" % (theta.tolist(), lo.tolist(), hi.tolist()), **ctx))
                 continue
